@@ -884,3 +884,124 @@ func ruleCMP5(c *Ctx) {
 		c.fail("copy-equal/count", nil, fmt.Sprintf("only %d copying types examined", n))
 	}
 }
+
+// ---------------------------------------------------------------- SEMI.2 (C20), SCAN.1 (C20, C04), XCH.4 (C15)
+
+// SEMI.2: the look-ahead that decides whether a comment after a
+// semicolon-arming token carries the line end. A //-comment always does; for
+// /*-comments the scan continues over every following comment on the line, so
+// the loop must be able to reach its next iteration (it consumes the next '/'),
+// answers true at a newline or EOF and false at any other token.
+func ruleSEMI2(c *Ctx) {
+	w := c.W
+	p := w.Parser
+	fd := w.FuncDecl(p, "Scanner.findLineEnd")
+	if fd == nil {
+		c.anchor("Scanner.findLineEnd")
+		return
+	}
+	var loop *ast.ForStmt
+	for _, s := range fd.Body.List {
+		if f, ok := s.(*ast.ForStmt); ok && f.Cond != nil {
+			loop = f
+		}
+	}
+	if loop == nil {
+		c.fail("lookahead/loop", fd, "findLineEnd has no look-ahead loop over the comments that follow")
+		return
+	}
+	cond := strings.ReplaceAll(w.Src(loop.Cond), " ", "")
+	c.check(strings.Contains(cond, "'/'") && strings.Contains(cond, "'*'"), "lookahead/loop", loop, "loops while the next thing is a comment", "the look-ahead loop is not `for s.ch == '/' || s.ch == '*'`: "+w.Src(loop.Cond))
+	allReturn := false
+	if n := len(loop.Body.List); n > 0 {
+		_, lastIsReturn := loop.Body.List[n-1].(*ast.ReturnStmt)
+		hasContinue := containsNode(loop.Body, func(m ast.Node) bool {
+			b, ok := m.(*ast.BranchStmt)
+			return ok && b.Tok == token.CONTINUE
+		})
+		allReturn = lastIsReturn && !hasContinue
+	}
+	c.check(!allReturn, "lookahead/iterates", loop, "a comment without a newline is followed by a look at the next comment", "every path through the look-ahead loop returns in its first iteration: only the first comment after the token is examined, so `x /* a */ // b` + newline gets no semicolon")
+	// the three answers
+	type ans struct{ key, cond, val, good, bad string }
+	for _, a := range []ans{
+		{"lookahead/line-comment", "s.ch=='/'", "true", "a //-comment contains the line end", "a //-comment is not answered with true"},
+		{"lookahead/newline-or-eof", "s.ch=='\\n'", "true", "newline or EOF after the comments: true", "newline / EOF after a comment is not answered with true"},
+		{"lookahead/other-token", "s.ch!='/'", "false", "another token on the line: false", "a non-comment token after the comment is not answered with false"},
+	} {
+		found := containsNode(loop.Body, func(n ast.Node) bool {
+			is, ok := n.(*ast.IfStmt)
+			if !ok || !strings.Contains(strings.ReplaceAll(w.Src(is.Cond), " ", ""), a.cond) {
+				return false
+			}
+			return containsNode(is.Body, func(m ast.Node) bool {
+				r, ok := m.(*ast.ReturnStmt)
+				return ok && len(r.Results) == 1 && w.Src(r.Results[0]) == a.val
+			})
+		})
+		c.check(found, a.key, loop, a.good, a.bad)
+	}
+	// the state is restored whatever the answer (deferred reset)
+	c.check(containsNode(fd.Body, func(n ast.Node) bool { _, ok := n.(*ast.DeferStmt); return ok }), "lookahead/restores", fd, "scanner state restored by defer", "findLineEnd does not restore the scanner state with a deferred reset")
+}
+
+// SCAN.1: the literal scanners are ports of go/scanner.
+var scanPorts = map[string]struct {
+	tengo, ref []string
+	why        string
+}{
+	"Scanner.scanEscape": {}, "Scanner.scanRune": {}, "Scanner.scanString": {}, "Scanner.scanRawString": {},
+	"Scanner.skipWhitespace": {}, "Scanner.switch2": {}, "Scanner.switch3": {}, "Scanner.switch4": {},
+}
+
+func ruleSCAN1(c *Ctx) {
+	w := c.W
+	ref, err := w.loadRef("go/scanner")
+	if err != nil {
+		c.anchor("reference package go/scanner: " + err.Error())
+		return
+	}
+	checkNearPorts(c, w.Parser, ref, "go/scanner", scanPorts, map[string]string{"StripCR": "stripCR"}, func(n string) string { return n }, nil, nil)
+}
+
+// XCH.4: Compiled.Set stores the converted value on every path that reports
+// success: between the successful lookup of the name and the store there is
+// no way out except an error return ("a variable reads as the last value set").
+func ruleXCH4(c *Ctx) {
+	w := c.W
+	p := w.Root
+	set := w.FuncDecl(p, "Compiled.Set")
+	if set == nil {
+		c.anchor("Compiled.Set")
+		return
+	}
+	isStore := func(s ast.Stmt) bool {
+		as, ok := s.(*ast.AssignStmt)
+		if !ok || len(as.Lhs) != 1 {
+			return false
+		}
+		ix, ok := as.Lhs[0].(*ast.IndexExpr)
+		if !ok {
+			return false
+		}
+		f, _ := FieldSel(p, ix.X)
+		return f != nil && f.Name() == "globals"
+	}
+	r := pathSeq(set.Body.List, func(s ast.Stmt) bool {
+		if isStore(s) {
+			return true
+		}
+		// error exits count as "handled": return <non-nil>
+		if rs, ok := s.(*ast.ReturnStmt); ok && len(rs.Results) == 1 && !isNilIdent(rs.Results[0]) {
+			return true
+		}
+		return false
+	})
+	c.check(r == pHit, "XCH.4/set-always-stores", set, "every successful path of Set stores the value", "Compiled.Set can report success without storing the value (an early `return nil` before c.globals[idx] = obj): a later Get or run sees the old value")
+	// the stored value is the conversion of the argument
+	conv := containsNode(set.Body, func(n ast.Node) bool {
+		call, ok := n.(*ast.CallExpr)
+		return ok && Callee(p, call) != nil && Callee(p, call).Name() == "FromInterface"
+	})
+	c.check(conv, "XCH.4/set-converts", set, "the value is converted with FromInterface", "Compiled.Set does not convert the host value with FromInterface")
+}
